@@ -630,7 +630,42 @@ def _tree_cases(rng, root, n_xpaths, walkers=True):
     yield calc_case(root, env, toks, chains, desc)
 
 
+def dynamic_field_cases(rng, n):
+    """legacy traversal over classes whose child fields are recognised only by the values they hold (`typing.Sequence[Node]`,
+    `typing.Any` annotations): dfs / bfs / gather enumerate the start node and exactly the descendant positions, in order"""
+    import warnings
+    from pyoak.origin import NO_ORIGIN as O
+    for _ in range(n):
+        fail = None
+        try:
+            with warnings.catch_warnings():
+                warnings.simplefilter("ignore")
+                k = [z.LLeaf(v=i, origin=O) for i in range(5)]
+                s1 = z.LSeq(body=(k[0], k[1]), v=10, origin=O)
+                box = z.LAnyKid(x=k[2], v=11, origin=O)
+                mid = z.LSeq(body=(s1, box, k[3]), v=12, origin=O)
+                root = z.LAnyKid(x=mid, v=13, origin=O) if rng.random() < 0.5 else z.LSeq(body=(mid,), v=13, origin=O)
+                pre = [13, 12, 10, 0, 1, 11, 2, 3]
+                post = [0, 1, 10, 2, 11, 3, 12, 13]
+                lvl = [13, 12, 10, 11, 3, 0, 1, 2]
+                val = lambda n_: getattr(n_, "v", None)  # noqa
+                got = {"dfs": [val(n_) for n_ in root.dfs()], "dfs(bottom_up)": [val(n_) for n_ in root.dfs(bottom_up=True)],
+                       "bfs": [val(n_) for n_ in root.bfs()], "dfs(skip_self)": [val(n_) for n_ in root.dfs(skip_self=True)],
+                       "gather(LLeaf)": [val(n_) for n_ in root.gather(z.LLeaf)]}
+                want = {"dfs": pre, "dfs(bottom_up)": post, "bfs": lvl, "dfs(skip_self)": pre[1:], "gather(LLeaf)": [0, 1, 2, 3]}
+                for key in want:
+                    if got[key] != want[key]:
+                        fail = f"{key} yields {got[key]}, expected {want[key]}"
+                        break
+                root.detach()
+        except Exception as e:  # noqa
+            fail = f"raised {type(e).__name__}: {e}"[:200]
+        yield Case("directed:dynamic-child-fields", None, None, True, "LAnyKid(x=…) / LSeq(body: typing.Sequence[LExpr]) tree: dfs / bfs / gather",
+                   oracle_fail=fail, sig="ltraverse|directed|dynamic-child-fields")
+
+
 def cases(rng: random.Random, tier: str):
+    yield from dynamic_field_cases(rng, 6 if tier == "quick" else 60)
     n_trees = 400 if tier == "quick" else 4000
     per_tree = 12 if tier == "quick" else 20
     sizes = [1, 2, 3, 5, 8, 12, 20, 40] if tier == "quick" else [1, 2, 3, 5, 8, 12, 20, 40, 120, 300]
